@@ -33,7 +33,7 @@ def gcc_agrees(m, sc, i):
     e = sc["ents"][i]
     res = sc["res"][i]
     a = ["gcc", "-E", "-P"]
-    a += scen.x_args(e)
+    a += scen.x_args(e) + [scen.XSTR_ARG]
     if e.get("hdr", "U") != "U":
         a.append("-DHDR=" + render.val_text(e["hdr"]))
     for r in e["idirs"]:
